@@ -465,7 +465,7 @@ func (g *genCtx) famImages() []*plan {
 // default limit costs pdfcpu more than 2 GiB of RSS (bytes.Buffer doubling), so the default value of
 // MaxDecodeBytes itself is exercised where it is cheap (a predictor row one column wider than the
 // default limit; /Length, /Size, /N, /First, depth and pixel counts against their defaults in the
-// other families) and the heavy bombs run under explicit limits of 64 MiB (128 and 256 MiB in the thorough tier).
+// other families) and the heavy bombs run under explicit limits of 32 MiB (128 and 256 MiB in the thorough tier).
 
 func (g *genCtx) famDefaults() []*plan {
 	var out []*plan
@@ -478,7 +478,7 @@ func (g *genCtx) famDefaults() []*plan {
 		site string
 		ent  string
 	}
-	big := 64 * mib
+	big := 32 * mib
 	if g.thorough {
 		big = 128 * mib
 	}
